@@ -9,8 +9,8 @@ sys.path.insert(0, os.path.join(VERIF, "tools"))
 import gen
 
 
-def run(outdir, only=None):
-    gen.generate(outdir, probe=True)
+def run(outdir, only=None, stub=None):
+    gen.generate(outdir, stub=stub, probe=True)
     m = json.load(open(os.path.join(outdir, "map.json")))
     mods = sorted(set(f["module"] for k, f in m["functions"].items() if f["mode"] in ("contract", "plain") and (only is None or k in only)))
     cmd = ["verus", "pq_verif.rs", "--triggers-mode", "silent", "--error-format=json", "--multiple-errors", "30",
@@ -26,6 +26,8 @@ def run(outdir, only=None):
         d = json.loads(line)
         if d.get("level") != "error":
             continue
+        if d.get("code"):
+            return None, None       # the probe input does not compile: probes not run (never "surviving")
         for sp in d.get("spans", []):
             for s in spans:
                 if s["start"] <= sp["byte_start"] and sp["byte_end"] <= s["end"]:
@@ -40,6 +42,8 @@ def run(outdir, only=None):
 if __name__ == "__main__":
     out = sys.argv[1] if len(sys.argv) > 1 else os.path.join(VERIF, "gen", "_probe")
     probes, surviving = run(out)
+    if probes is None:
+        print("vacuity probes: input does not compile, not run"); sys.exit(2)
     print("vacuity probes: %d planted, %d rejected by the verifier, %d surviving" % (len(probes), len(probes) - len(surviving), len(surviving)))
     for p in surviving:
         print("SURVIVING PROBE (contradictory requires / invariant?):", p)
